@@ -1,0 +1,30 @@
+//go:build verif
+
+package visitor
+
+import "sort"
+
+// Hooks for the verification harness (build tag `verif`); not compiled otherwise.
+
+// VerifDump returns the sorted names of the configured visitors and of the running ones.
+func (vm *Manager) VerifDump() (cfgs []string, running []string) {
+	vm.mu.RLock()
+	defer vm.mu.RUnlock()
+	for n := range vm.cfgs {
+		cfgs = append(cfgs, n)
+	}
+	for n := range vm.visitors {
+		running = append(running, n)
+	}
+	sort.Strings(cfgs)
+	sort.Strings(running)
+	return
+}
+
+// VerifCfg returns the configuration stored under name.
+func (vm *Manager) VerifCfg(name string) (any, bool) {
+	vm.mu.RLock()
+	defer vm.mu.RUnlock()
+	c, ok := vm.cfgs[name]
+	return c, ok
+}
